@@ -72,6 +72,34 @@ CHECKS = {
               'tiles, multi-byte size fields, open GOP, screen content, 10 bit, VBR, film grain, superres; the stream-header call is compared with the in-band header.'),
         note=('The property for all inputs is decided only on the scenarios run (partial); the parser is a hand transcription of the AV1 syntax (trusted; cross-checked only by the library\'s own decoder accepting the same '
               'streams in other checks). Frame headers are parsed only as far as needed to tell displayed frames; tile-group payloads are not parsed.')),
+    'C01': dict(
+        category='other', design_ref='DESIGN.md §6 C01',
+        technique='Coq theorems for the entropy / framing / pairing layers + differential run: encoder recon vs the library\'s own decoder, per display position',
+        text=('The layers of C01 that are logic are proved elsewhere in this development and imported here (C25 entropy coder round trip for every symbol list, C02 OBU framing, C03 one packet and one recon picture per display position); '
+              'the equality of the reconstructed and decoded pictures themselves is compared on real encodes over presets, tiles, screen-content tools, superres, film grain, loop filters on/off, rate control, qp extremes, overlays, '
+              '10 bit, hierarchies and sizes, matched by display position.'),
+        note=('Partial by nature: the pixel reconstruction process (prediction, transforms, loop filters, film grain) is not modelled in Coq. The only decoder in the sandbox is libSvtAv1Dec, which shares Source/Lib/Common kernels with the encoder; '
+              '"independent conforming decoders" cannot be reached here.')),
+    'C18': dict(
+        category='other', design_ref='DESIGN.md §6 C18',
+        technique='Coq theorem for the clamp stage + Coq-verified bounds monitor on the base_q_idx of every coded frame of real encodes',
+        text=('c18_qidx_in_bounds: for every value rate control or QP scaling may produce, the index written after the clamp lies between the indices of the configured min and max QP (table checked against the source on every run); '
+              'c18_cqp_exact for fixed QP. check_c18_bounds (proved equivalent to the bound specification) runs on the base_q_idx of every coded frame - hidden frames included, parsed by the decoder - of VBR/CVBR encodes with tight and '
+              'equal bounds, QP scaling on and off, configured qp inside and outside the bounds, and fixed-QP encodes with exact-index expectation.'),
+        note='Which branch of rate_control_kernel a frame takes is observed, not proved: the 7k lines of rate control are universally quantified inputs of the clamp model. Partial.'),
+    'C19': dict(
+        category='other', design_ref='DESIGN.md §6 C19',
+        technique='Coq theorems (intra-period counter; closed-GOP suffix for any decoding function) + Coq-verified placement monitor and suffix decodes on real streams',
+        text=('c19_intra_placement: the intra-period counter flags picture k iff k is a multiple of P+1, for every P>=1 and k; c19_closed_gop_suffix / c19_key_frame_suffix: for ANY decoding function, decoding a suffix whose frames '
+              'only read slots written since the random-access point does not depend on the earlier decoder state. On real streams: the verified placement monitor on decoder-parsed frame types by display position (periods 1..15, -1, 1025), '
+              'IDR frames are shown key frames refreshing all 8 slots, and every shown key frame is used as a random-access point with the suffix decode compared to the full decode.'),
+        note='That picture decision implements the counter as modelled, and that no frame after a key frame reads an older slot, is observed on the scenarios (the latter follows from refresh_frame_flags = 0xFF, which is checked). Partial.'),
+    'C26': dict(
+        category='other', design_ref='DESIGN.md §6 C26',
+        technique='Coq-verified equality monitor between reported and recomputed SSE on real encodes',
+        text=('check_c26 (proved equivalent to "reported = recomputed mod 2^32" per plane and packet) runs on every packet of stat-report encodes: the SSE is recomputed by the driver from the submitted picture and the reconstructed '
+              'picture of the same display position (equal to the decoded picture by C01) over sizes that are and are not multiples of 8, four content types, temporal filtering on/off, qp 63 on extreme content, VBR.'),
+        note='Arithmetic of the recomputation (64-bit accumulation cannot overflow for any accepted size) is proved; which buffers the library uses is observed. Partial.'),
 }
 
 NOT_BUILT_REASON = 'check not built yet in this development (work in progress); no claim is made'
